@@ -148,6 +148,16 @@ def run(ctx):
                 raise common.Infra("TLC reports %s violated on the model of the current code (%s) but the real code followed "
                                    "the schedule without getting stuck: the specification misrepresents the code"
                                    % (inv, name))
+    # the known deviation "loop exit in a separate critical section" (pinned client): its counterexample is replayed
+    # into the real code as a targeted schedule; the repaired client must not end stuck on it (the gate the schedule
+    # needs no longer exists, so the replay may stop following - what matters is that every call returns)
+    dv = A.deviation_cex(ctx, "ATPMC", "separate_loop_exit",
+                         dict(Runs="R2", Serial="TRUE", StepBeh="BehOk", MergedExit="FALSE"), ["NoStuck"])
+    acts = A.parse_cex(dv.out)
+    dsc = dict(id="deviation/separate_loop_exit", mode="replay", cap=0, schedule=acts,
+               runs=[dict(id="r1", beh="ok"), dict(id="r2", beh="ok")])
+    judge_session(ctx, dsc, A.run_driver(ctx, [dsc], jobs=1)[0], what="deviation schedule")
+    ctx.count("deviation/separate_loop_exit")
     # ---------------------------------------------------------------- 2. spec -> code: sampled behaviours
     nsim = 400 if thorough else 60
     sims = []
